@@ -313,18 +313,34 @@ def run(chk):
                 self.default_factory = factory
 
         class _SettingsClass(ClassRef):
-            """type(settings): the class also exposes model_fields (pydantic >= 2.11 deprecates instance access)."""
+            """type(settings): the class also exposes model_fields (pydantic >= 2.11 deprecates instance access).  Attributes may be stored
+            on it (a per-class cache) and, as in Python, a subclass *sees* what was stored on its base classes."""
+            _settable = True
 
-            def __init__(self, name, fields):
+            def __init__(self, name, fields, bases=()):
                 super().__init__(name)
                 self.model_fields = fields
+                self.__dict__["_bases"] = tuple(bases)
+
+            def __getattr__(self, attr):
+                if attr.startswith("__"):
+                    raise AttributeError(attr)
+                for b in self.__dict__.get("_bases", ()):
+                    if attr in b.__dict__:
+                        return b.__dict__[attr]
+                    try:
+                        return getattr(b, attr)
+                    except AttributeError:
+                        pass
+                raise AttributeError(attr)
 
             def _abs_is(self, o):   # classes are singletons: `type(x) is C` compares by name here
                 return isinstance(o, ClassRef) and o.name == self.name
 
-        def _obj(fields, values, cls_ref):
+        def _obj(fields, values, cls_ref, klass=None):
             o = AbsObj({"BaseSettings", cls_ref.name}, model_fields=fields)
-            o._abs_type = _SettingsClass(cls_ref.name, fields)
+            o._abs_type = klass if klass is not None else _SettingsClass(cls_ref.name, fields)
+            o.model_fields_set = set(values)
             for k_, v_ in values.items():
                 setattr(o, k_, v_)
             return o
@@ -382,10 +398,30 @@ def run(chk):
                     o = _obj({k_: f_ for k_, f_, _v in fs}, {k_: v_ for k_, _f, v_ in fs}, ClassRef("Top"))
                     if _run(o) != ("raises", "ValueError"):
                         bad.append(({"fields": 2, "nested_first": first_nested}, "a changed developer-only field declared next to a (clean) nested settings block passes: the walk over the fields ends at the nested block"))
+            # history: a parent settings class is validated first, then a subclass that restates a developer-only default (legacy /
+            # billing profiles): each class is held to its *own* approved values, whatever was checked before
+            for first in ("parent", "child"):
+                pf, cf = {"f": _Field(True, 5, None)}, {"f": _Field(True, 7, None)}
+                pk = _SettingsClass("ParentSettings", pf)
+                ck = _SettingsClass("ChildSettings", cf, bases=(pk,))
+                seq = [("parent", pk, pf, 5, True), ("child", ck, cf, 7, True), ("child", ck, cf, 5, False), ("parent", pk, pf, 7, False)]
+                if first == "child":
+                    seq = [seq[1], seq[0], seq[2], seq[3]]
+                for who, kl, fl, val, accept in seq:
+                    rows += 1
+                    got = _run(_obj(fl, {"f": val}, ClassRef(kl.name), klass=kl))
+                    want = ("returns", True) if accept else ("raises", "ValueError")
+                    if got != want:
+                        bad.append(({"history": first + "-first", "class": who, "value": val}, f"{got} (expected {want}): after a {'parent' if first == 'parent' else 'sub'}class was validated, "
+                                    f"a {who} settings object with f={val} (its own approved value is {5 if who == 'parent' else 7}) is {'rejected' if accept else 'accepted'}"))
         except Unsupported as e:
             raise AnalysisError(f"{chkfn.key}: the recursive checker uses an operation outside the modelled subset: {e}")
         pin_bad = [b_ for b_ in bad if b_[0].get("nested") and b_[0].get("wrongclass") and b_[0].get("developer") and b_[0].get("hasfactory") and not b_[0].get("inner_changed")]
         rec_bad = [b_ for b_ in bad if b_[0].get("nested") and b_[0].get("inner_changed") and "recurse" in b_[1]]
+        hist_bad = [b_ for b_ in bad if "history" in b_[0]]
+        bad = [b_ for b_ in bad if "history" not in b_[0]]
+        r2.require(not hist_bad, f"{chkfn.key}|own-approved-values-whatever-came-before", chkfn.where(),
+                   f"each settings class must be held to its own approved values independently of what was validated earlier in the process: {hist_bad[:2]}")
         it_bad = [b_ for b_ in bad if b_[0].get("fields") == 2]
         if any("nested_first" in b_[0] for b_ in it_bad):
             it_bad = [b_ for b_ in it_bad if "nested_first" in b_[0]] + [b_ for b_ in it_bad if "nested_first" not in b_[0]]
